@@ -261,6 +261,34 @@ def exec (g : Bool) : Act → Struct → Struct × Outcome
   | .call mar opts nn body, s =>
       runOn { globalFormatTag := g, needName := nn, child := exec g body } (if mar then marshalEncodeS else unmarshalDecodeS) opts s
 
+/-! ### the option struct a callee sees (the closed forms proved in Lemmas/ScopeL: `member_closed`, `user_closed`,
+`call_unmarshal_closed`, `call_marshal_closed`) -/
+
+/-- The flags a struct member's value is (un)marshaled with. -/
+def tagged (str : Bool) (fmt : Bytes) (s : Struct) : Struct :=
+  let s1 : Struct := if str then { s with flags := s.flags.set (bv (jsonflags.c_StringTag + 1)) } else s
+  if fmt != [] then { s1 with flags := s1.flags.set (bv (jsonflags.c_FormatTag + 1)), format := fmt } else s1
+
+/-- `mayAppendSupportFormatTag`. -/
+def callOpts (g : Bool) (opts : List Opt) : List Opt := if g then opts ++ [.formatTagSupport true] else opts
+
+/-- The option struct the body of `UnmarshalDecode` runs with. -/
+def enterUnmarshal (o : List Opt) (s : Struct) : Struct := s.join o
+
+/-- The option struct the body of `MarshalEncode` runs with. -/
+def enterMarshal (o : List Opt) (s : Struct) : Struct :=
+  let j := s.join o
+  if j.flags.has (bv jsonflags.c_AnyWhitespace) && j.flags.get (bv jsonflags.c_Multiline) then initializeMultiline j else j
+
+/-- The two guards at an object-name position. -/
+def nameGuardFails (nn : Bool) (s j : Struct) : Bool :=
+  nn && (s.flags.get (bv jsonflags.c_AllowDuplicateNames) != j.flags.get (bv jsonflags.c_AllowDuplicateNames) ||
+         s.flags.get (bv jsonflags.c_AllowInvalidUTF8) != j.flags.get (bv jsonflags.c_AllowInvalidUTF8))
+
+/-- The whitespace guard of `MarshalEncode`. -/
+def wsGuardFails (o : List Opt) (s : Struct) : Bool :=
+  (s.join o).flags.has (bv jsonflags.c_AnyWhitespace) && changedWhitespace s (enterMarshal o s)
+
 /-- `Marshal`/`MarshalWrite`/`Unmarshal`/`UnmarshalRead`: a pooled coder is `reset` with the call options
 (jsontext/encode.go:118-129: `Struct{}.Join(opts...)`, `InitializeMultiline` under Multiline — encoder only), marshal
 additionally sets OmitTopLevelNewline; the struct is dropped with the pooled coder afterwards. -/
